@@ -267,3 +267,35 @@ for _pid in ("C01", "C02", "C03", "C06", "C07", "C08", "C09", "C10", "C11", "C12
     _P["translators"] = list(_P.get("translators", [])) + ["mirrors2lean"]
     _P["lean_targets"] = list(_P.get("lean_targets", [])) + ["JediVerif.Properties.Mirrors.%s" % _pid]
     _P["theorems"] = (lambda _old=_P["theorems"], _p=_pid: _old() + [("Jedi.Mirrors.mirror_%s" % _p, "JediVerif.Properties.Mirrors.%s" % _p)])
+
+
+# --- T8 Go bindings (translate/go2lean.py): memory model + typed calls of lang/go, regenerated on every run
+def go_search(log):
+    """a generated Go memory theorem no longer checks: evaluate the regenerated models on a family of small valid
+    environments and return the out-of-bounds events found (the concrete failing inputs)"""
+    import subprocess
+    r = subprocess.run(["lake", "build", "JediVerif.Gen.GoBindings"], cwd=os.path.join(VERIF, "lean"), capture_output=True, text=True)
+    if r.returncode != 0:
+        return []
+    r = subprocess.run(["lake", "env", "lean", "--run", "scripts/GoSearch.lean", "600"], cwd=os.path.join(VERIF, "lean"), capture_output=True, text=True, timeout=1800)
+    found = []
+    for l in r.stdout.splitlines():
+        if l.startswith("FAIL "):
+            m = re.match(r"FAIL (\S+) trial=(\d+) event=(.*?) env=(.*)$", l)
+            if m:
+                found.append(("go-model %s  environment: %s" % (m.group(1), m.group(4)), m.group(3),
+                              "FAIL the Go function, translated from the current source, performs this out-of-bounds event in a valid call (replay: cd lean && lake env lean --run scripts/GoSearch.lean)"))
+    log("go model search: %d function(s) with an out-of-bounds event" % len(found))
+    return found
+
+for _pid, _mod, _ns in (("C17", "JediVerif.Properties.GoBindings", "Jedi.GoB"), ("C19", "JediVerif.Properties.GoView", "Jedi.GoView")):
+    _P = PROPS[_pid]
+    _P["translators"] = list(_P.get("translators", [])) + ["go2lean"]
+    _P["lean_targets"] = list(_P.get("lean_targets", [])) + [_mod]
+    _P["theorems"] = (lambda _old=_P["theorems"], _m=_mod, _n=_ns: _old() + module_theorems(_m, _n))
+PROPS["C17"]["search"] = go_search
+PROPS["C17"]["trusted_extra"] = list(PROPS["C17"].get("trusted_extra", [])) + [
+    "translate/go2lean.py + goparse.py: the reading of the Go subset (the Go layer cannot be executed here, so this translator is not validated by running; it refuses constructs it does not know)",
+    "Impl/GoMem.lean: Pre (what a valid call of each binding is) and bufNeeds (bytes each C function touches behind a buffer argument; each entry cites the C-side theorem it rests on); malloc/realloc failure and integer overflow of size computations are not modelled"]
+PROPS["C19"]["trusted_extra"] = list(PROPS["C19"].get("trusted_extra", [])) + [
+    "translate/go2lean.py: Go type rules for cgo arguments as implemented there (not validated by a Go compiler)"]
